@@ -56,7 +56,7 @@ def G_weighted_steps():
     return G.weighted((2, st.sampled_from(["prefilled-whitespace-twin", "prefilled-output", "same", "order"])),
                       (5, st.sampled_from(["via-symlinked-parent", "cwd-rel", "cwd-dotslash", "cwd-updown", "cwd-dot", "moved", "cwd-inside-sub"])),
                       (3, st.sampled_from(["others-before", "others-after", "others-both", "api-successive"])),
-                      (1, st.just("hashseed")))
+                      (2, st.just("hashseed")))      # a fresh interpreter: also the only run free of state earlier cases left behind
 
 
 def other_inputs(sb, n, tag, twin_of=None):
